@@ -124,7 +124,7 @@ class C13(Spec):
              'on the emitted blocks, unclean random streams (correspondence only) and malformed constructions. '
              'Non-trivial = the stream has at least one transition and at least two chunks.')
     exhaustive_note = {
-        'thorough': 'all streams of <= 3 runs with lengths in {m+1, m+2} (m = 1, 2; both initial states, both first values) '
+        'thorough': 'all streams of <= 3 runs with lengths in {m+1, m+2} (m = 1, 2; for m = 3: <= 2 runs; both initial states, both first values) '
                     'x ALL ordered compositions of the stream into chunks (every chunk boundary set)',
     }
 
@@ -192,7 +192,7 @@ class C13(Spec):
     def cases(self, rng, tier):
         quick = tier == 'quick'
         # -- boundary-targeted: a chunk boundary at every offset around every edge
-        reps = 1 if quick else 4
+        reps = 3 if quick else 8
         for m in range(1, 7):
             for _ in range(reps):
                 for init in (False, True):
@@ -212,7 +212,7 @@ class C13(Spec):
                     yield self._mk(rng, m, init, first, ls, [1] * n)          # sample by sample
                     yield self._mk(rng, m, init, first, ls, [n])              # one chunk
         # -- random clean streams, random compositions (some empty chunks)
-        for _ in range(700 if quick else 12000):
+        for _ in range(3000 if quick else 20000):
             m = rng.randint(1, 6)
             init = rng.choice([True, False])
             ls = self._random_lengths(rng, m)
@@ -223,7 +223,7 @@ class C13(Spec):
                 sizes.insert(rng.randint(0, len(sizes)), 0)
             yield self._mk(rng, m, init, first, ls, sizes)
         # -- unclean random streams: correspondence only (outside the property's quantifier unless they happen to be clean)
-        for _ in range(150 if quick else 3000):
+        for _ in range(600 if quick else 4000):
             m = rng.randint(1, 5)
             n = rng.randint(0, 24)
             p = rng.random()
@@ -241,8 +241,8 @@ class C13(Spec):
         yield c
         # -- exhaustive small scope (thorough)
         if not quick:
-            for m in (1, 2):
-                for k in (1, 2, 3):
+            for m in (1, 2, 3):
+                for k in ((1, 2, 3) if m < 3 else (1, 2)):
                     for ls in itertools.product((m + 1, m + 2), repeat=k):
                         for init in (False, True):
                             for first in (False, True):
